@@ -352,7 +352,10 @@ Definition p_segment (fuel : nat) (braces : bool) (s : st) : res (svs * N) :=
       end
   end.
 
-(** [string <- (naked_string / s_quoted_string / d_quoted_string / bracketed_string) (hsp? string)?]
+(** [string <- string_part (hsp? string_part)*] with [string_part <- naked_string / s_quoted_string /
+    d_quoted_string / bracketed_string] (until fix 971a551 the rule was written with right recursion,
+    [part (hsp? string)?]: the same language and the same transformed value, which is why this function
+    did not change; only the grammar pin below did).
     The transformer appends the separating whitespace as a Substring. *)
 Fixpoint p_string (fuel : nat) (braces : bool) (s : st) : res (svs * N) :=
   match fuel with
@@ -828,10 +831,10 @@ Definition modelled_rules : grammar := mkGrammar (s "recipe") [
   (s "preposition", rei "(?i)of([ ~t]+the)?\b");
   (s "known_unit", PRegex (u "(?i)(" ++ render_units ++ u ")\b") F_DOTALL_I);
   (s "freeform_unit", rule "static_string");
-  (s "string", PConcat [PAlt [rule "naked_string"; rule "s_quoted_string"; rule "d_quoted_string"; rule "bracketed_string"];
-                        opt (PConcat [opt hsp_; rule "string"])]);
-  (s "static_string", PConcat [PAlt [rule "naked_string"; rule "s_quoted_string"; rule "d_quoted_string"];
-                               opt (PConcat [opt hsp_; rule "static_string"])]);
+  (s "string", PConcat [rule "string_part"; PStar (PConcat [opt hsp_; rule "string_part"])]);
+  (s "string_part", PAlt [rule "naked_string"; rule "s_quoted_string"; rule "d_quoted_string"; rule "bracketed_string"]);
+  (s "static_string", PConcat [rule "static_string_part"; PStar (PConcat [opt hsp_; rule "static_string_part"])]);
+  (s "static_string_part", PAlt [rule "naked_string"; rule "s_quoted_string"; rule "d_quoted_string"]);
   (s "naked_string", re_ "[^~q',:=/(){}\s]([^~q',:=/(){}~n~r]*[^~q',:=/(){}\s])?");
   (s "d_quoted_string", PConcat [re_ "~q"; PStar (PAlt [esc; re_ "[^~q~n~r]"]); re_ "~q"]);
   (s "s_quoted_string", PConcat [re_ "'"; PStar (PAlt [esc; re_ "[^'~n~r]"]); re_ "'"]);
